@@ -207,7 +207,9 @@ def gen_ops(r, obs):
             sub = sorted(r.sample(sorted(inside), r.randint(1, len(inside))))
             lo = min(t0[i] for i in sub)
             hi = max(tf[i] for i in sub)
-            ts = None if r.random() < 0.4 else sorted({r.randint(lo, hi + 1) for _ in range(r.randint(1, 3))})
+            ts = None if r.random() < 0.4 else sorted({r.randint(lo - 1, hi + 1) for _ in range(r.randint(1, 4))})
+            if ts is not None and r.random() < 0.5:
+                r.shuffle(ts)           # explicit step lists need not be ascending nor inside every obstacle's horizon
             ops.append(["assign", sub if r.random() < 0.8 else None, ts, False])
         elif x < 0.86:
             ops.append(["reopen", r.choice(["xml", "pb"])])
